@@ -40,6 +40,10 @@ pub enum PgOp {
     WrapStr(bool),
     /// read a character (GETC, or IN when true) and print what R0 holds as a number (PUTN)
     InShow(bool),
+    /// compute a stack-extension word that the image does not hold (x6A00+k doubled = xD400+2k,
+    /// `push r0`), store it over a later slot and run into it (main program only; the stack
+    /// pointer is put back afterwards)
+    SynthD(u8),
 }
 
 #[derive(Clone, Copy, Debug, Serialize, Deserialize, PartialEq, Eq, Hash)]
@@ -109,6 +113,7 @@ pub fn pg_op() -> impl Strategy<Value = PgOp> {
         1 => Just(PgOp::Break),
         1 => (0u8..3).prop_map(PgOp::GetPc),
         1 => any::<bool>().prop_map(PgOp::WrapStr),
+        1 => (0u8..32).prop_map(PgOp::SynthD),
     ]
 }
 
@@ -347,6 +352,20 @@ fn emit_ops(b: &mut B, ops: &[PgOp], spec: &ProgSpec, level: usize, nsubs: usize
                 b.emit(Stmt::new(Op::Not, &[1, 1], Operand::None));
                 b.label(slot);
                 b.emit(Stmt::new(Op::And, &[2, 2], imm(0))); // placeholder, overwritten above
+            }
+            PgOp::SynthD(k) => {
+                if level == 0 {
+                    let half = 0x6A00u16 | (*k as u16 & 0x1F);
+                    let slot = b.fresh("SD");
+                    let src = format!("N{slot}");
+                    selfmods.push((src.clone(), half));
+                    b.emit(Stmt::new(Op::Ld, &[0], lbl(&src)));
+                    b.emit(Stmt::new(Op::Add, &[0, 0], Operand::Reg(0)));
+                    b.emit(Stmt::new(Op::St, &[0], lbl(&slot)));
+                    b.label(slot);
+                    b.emit(Stmt::new(Op::And, &[2, 2], imm(0))); // placeholder, overwritten above
+                    b.emit(Stmt::new(Op::Add, &[7, 7], imm(1)));
+                }
             }
             PgOp::PushPop(x, y) => {
                 if spec.stack {
